@@ -60,6 +60,11 @@ def script(seed):
             d = datagram(rng, port)
             if dup is not None and rng.random() < 0.3:
                 d = dup                                   # duplicate answer
+            elif dup is not None and rng.random() < 0.3 and dup.count(b",") >= 3:
+                parts = dup.split(b",")                   # a second console of the same system: same id, other address/serial
+                parts[0] = parts[0] + b"1"
+                parts[1] = parts[1][::-1] + b"7"
+                d = b",".join(parts)
             dup = d
             events.append((t, port, d))
     events.sort(key=lambda x: x[0])
